@@ -108,7 +108,21 @@ Theorem C07_ulm_phases_are_update_lun_map : forall fx K s,
        (lowc s) (wired s) (reloaded s) UDone (drev s).
 Proof. exact Jiva.Block.RebuildAtomic.ulm_all_is_update_lun_map. Qed.
 
+(** An UpdateLUNMap whose preload fails (the extent query of one chain file returns an error) reports the error,
+    having run the scan up to that file: the files and the live block map are what they were (only reclamation
+    holes of the scanned files are queued, and those keep every image by [C07_rebuild_converges]'s invariant);
+    sync.reloadAndVerify returns the error, the replica is not promoted.  If the step is tried again: once the
+    queued holes are applied or dropped the state satisfies the same invariant with UpdateLUNMap not started,
+    so every schedule of [C07_rebuild_converges] -- in particular a complete UpdateLUNMap -- goes on from it. *)
+Theorem C07_failed_updatelunmap_recoverable : forall K c s,
+  inv2 K c s -> dpend s = [] ->
+  inv2 K c (ulm_abort s) /\ src (ulm_abort s) = src s /\ dst (ulm_abort s) = dst s /\ uph (ulm_abort s) = UIdle.
+Proof.
+  intros K c s I Hp. split; [now apply inv2_abort|]. cbn. auto.
+Qed.
+
 Print Assumptions C07_rebuild_converges.
+Print Assumptions C07_failed_updatelunmap_recoverable.
 Print Assumptions C07_ulm_phases_are_update_lun_map.
 Print Assumptions C07_rebuild_unaligned_refuted.
 Print Assumptions C07_rebuild_diverged_refuted.
